@@ -262,7 +262,7 @@ fn c03_e2e(run: &mut Run, l: usize, cell: &lt::Cell, level: Level, set2: bool, p
 }
 
 pub fn c03(run: &mut Run) {
-    run.rule = "Exhaustive: 10 layouts x the 47-49 main-block character keys of each layout's oracle table x all 512 modifier records x 2 Ctrl modes x 3 object forms (bare, AnyLayout, &AnyLayout). Each case is classified by level (base = no Shift, no AltGr; shift; AltGr = right Alt or left Alt+Ctrl, without Shift) and compared with the national-layout table transcribed from the references the crate cites; CapsLock does not select a level except that on cased-letter keys (per the oracle table) it swaps the base and shift expectation; cases with Shift+AltGr, or with Ctrl being mapped on a letter key, are skipped and counted. AltGr level: required wherever the layout gives the key an AltGr level at all (its canonical AltGr output differs from its canonical base output) or produces a distinct character in the state at hand. Plus end-to-end typing scripts for every (layout, key, level) through Set 2 and Set 1 bytes into Keyboard<AnyLayout, SetN>. Non-trivial = (layout, key, level) whose expected character differs from the US layout's for that key and level, or AltGr level; distinct by that triple.".into();
+    run.rule = "Exhaustive: 10 layouts x the 47-49 main-block character keys of each layout's oracle table x all 512 modifier records x 2 Ctrl modes x 3 object forms (bare, AnyLayout, &AnyLayout). Each case is classified by level (base = no Shift, no AltGr; shift; AltGr = right Alt or left Alt+Ctrl, without Shift) and compared with the national-layout table transcribed from the references the crate cites; CapsLock does not select a level except that on cased-letter keys (per the oracle table) it swaps the base and shift expectation; cases with Shift+AltGr, or with Ctrl being mapped on a letter key, are skipped and counted. AltGr level: required wherever the layout gives the key an AltGr level at all (its canonical AltGr output differs from its canonical base output) or produces a distinct character in the state at hand. Plus end-to-end typing scripts for every (layout, key, level) through Set 2 and Set 1 bytes into Keyboard<AnyLayout, SetN>, and levels selected by event histories through Keyboard::process_keyevent (the key typed at one level - released, held or repeated - then at another level, 12 ordered level pairs x 4 shapes per key). Non-trivial = (layout, key, level) whose expected character differs from the US layout's for that key and level, or AltGr level; distinct by that triple. Every history case counts as well (a level change with the key pressed before at another level), distinct by (layout, key, level pair, shape).".into();
     run.assumptions = vec![
         "national-layout tables are the author's transcription of the standards (sealed sandbox); cells where references disagree are unconstrained: Uk Oem8 AltGr, Azerty Oem8/Oem4 AltGr + Oem8 Shift, Jis Key0/OemPlus Shift, Jis Oem12/Oem13 base accept backslash or yen, Colemak AltGr layer, Shift+AltGr everywhere".into(),
         "dead keys are expected as their spacing character (the crate documents no dead-key support)".into(),
@@ -304,6 +304,7 @@ pub fn c03(run: &mut Run) {
         }
     }
     run.part("typed_end_to_end", json!({"scripts": scripts, "precondition_failed(scancode stage did not deliver the intended event; C01/C02's business)": pre}));
+    c03_histories(run);
     run.exhaustive = true;
 }
 
@@ -970,6 +971,95 @@ fn opt_out_str(r: &Result<Option<DecodedKey>, String>) -> String {
     }
 }
 
+/// C03 through the event API: the level is selected by a *history* (which modifier keys are
+/// held), and the key itself may have been pressed before at another level (typematic repeat,
+/// decode caches). The level reached is computed by the modifier model; only plain levels
+/// (no Ctrl, no left Alt, CapsLock off) are generated.
+fn c03_hist_case(run: &mut Run, l: usize, h: &[(KeyCode, KeyState)], k: KeyCode) {
+    let table = lt::table(l);
+    let Some(cell) = table.iter().find(|c| c.key == k) else { return };
+    run.eval(1);
+    let (got, model) = press_after(l, h, k, HandleControl::Ignore);
+    let fa = facts(model);
+    if fa.ctrl || fa.caps || model & M_LALT != 0 || (fa.shift && fa.altgr) {
+        return;
+    }
+    let (want, lvl) = if fa.altgr {
+        match &cell.altgr {
+            AltGrWant::Char(c) => (Want::OneOf(vec![*c]), "AltGr"),
+            _ => return,
+        }
+    } else if fa.shift {
+        (cell.shift.clone(), "shifted")
+    } else {
+        (cell.base.clone(), "unshifted")
+    };
+    if matches!(want, Want::Any) {
+        return;
+    }
+    // an AltGr character is required only if the layout has that level at all (C12's business otherwise)
+    if fa.altgr && out(l, Form::Bare, k, M_NUMLOCK, HandleControl::Ignore) == out(l, Form::Bare, k, M_NUMLOCK | M_RALT, HandleControl::Ignore) {
+        return;
+    }
+    let ok = matches!(&got, Ok(Some(DecodedKey::Unicode(c))) if want.accepts(*c));
+    if !ok {
+        run.violation(Violation {
+            sig: format!("C03:history:{}:[{}]:{:?}:want={}:got={}", LAYOUT_NAMES[l], hist_text(h).replace(' ', "."), k, want.text(), opt_out_str(&got)),
+            what: format!("{}: after the key events [{}] (held per the history: {}), pressing {:?} at the {} level yields {}; the national layout prints {}", LAYOUT_NAMES[l], hist_text(h), mods_str(model), k, lvl, opt_out_str(&got), want.text()),
+            case: hist_case("C03", l, h, k, HandleControl::Ignore),
+        });
+    }
+}
+
+fn c03_histories(run: &mut Run) {
+    use KeyState::*;
+    // level-entering / level-leaving event pairs
+    let levels: [(&str, Vec<(KeyCode, KeyState)>, Vec<(KeyCode, KeyState)>); 4] = [
+        ("base", vec![], vec![]),
+        ("lshift", vec![(KeyCode::LShift, Down)], vec![(KeyCode::LShift, Up)]),
+        ("rshift", vec![(KeyCode::RShift, Down)], vec![(KeyCode::RShift, Up)]),
+        ("altgr", vec![(KeyCode::RAltGr, Down)], vec![(KeyCode::RAltGr, Up)]),
+    ];
+    let mut n = 0u64;
+    for l in 0..N_LAYOUTS {
+        for cell in &lt::table(l) {
+            let k = cell.key;
+            for (i, (_, enter1, leave1)) in levels.iter().enumerate() {
+                for (j, (_, enter2, _)) in levels.iter().enumerate() {
+                    if i == j {
+                        continue;
+                    }
+                    // the key typed at level 1 (released or still held = typematic), then level 2
+                    for variant in 0..4 {
+                        let mut h: Hist = enter1.clone();
+                        h.push((k, Down));
+                        match variant {
+                            0 => h.push((k, Up)),
+                            1 => {}
+                            2 => { h.push((k, Down)); }
+                            _ => { h.push((k, Up)); h.push((k, Down)); h.push((k, Down)); }
+                        }
+                        // leave level 1 before or after entering level 2
+                        if variant % 2 == 0 {
+                            h.extend(leave1.iter().cloned());
+                            h.extend(enter2.iter().cloned());
+                        } else {
+                            h.extend(enter2.iter().cloned());
+                            h.extend(leave1.iter().cloned());
+                        }
+                        c03_hist_case(run, l, &h, k);
+                        n += 1;
+                    }
+                }
+            }
+        }
+    }
+    run.nontrivial_enum(n);
+    run.part("levels_selected_by_event_histories", json!({"cases": n, "shape": "enter level 1, press the key (release it / keep it held / repeat it), move to level 2 (leave-then-enter or enter-then-leave), press the key"}));
+    let hs: Hist = vec![(KeyCode::Q, Down), (KeyCode::Q, Down), (KeyCode::RAltGr, Down)];
+    run.sample(|| json!({"layer":"levels-by-history","layout":"De105Key","history":hist_text(&hs),"then":"Q↓","observed":opt_out_str(&press_after(L_DE, &hs, KeyCode::Q, HandleControl::Ignore).0)}));
+}
+
 fn c09_hist_case(run: &mut Run, l: usize, h: &[(KeyCode, KeyState)], k: KeyCode, mode: HandleControl, letter: char) {
     run.eval(1);
     let (got, model) = press_after(l, h, k, mode);
@@ -1233,6 +1323,7 @@ pub fn replay(run: &mut Run, case: &Value) -> bool {
             let h = hist_from_json(&case["history"]);
             let mode = mode_by_name(case["mode"].as_str().unwrap_or("Ignore")).unwrap_or(HandleControl::Ignore);
             match case["check"].as_str().unwrap_or("") {
+                "C03" => c03_hist_case(run, l, &h, k),
                 "C09" => { if let Some(c) = letter_of(l, k) { c09_hist_case(run, l, &h, k, mode, c) } }
                 "C10" => c10_hist_case(run, l, &h, k, mode, cased_letter(l, k)),
                 "C15" => c15_hist_case(run, l, &h, k, mode),
